@@ -3,6 +3,7 @@ package c17
 
 import (
 	"fmt"
+	"math"
 	"strconv"
 	"strings"
 	"testing"
@@ -21,6 +22,7 @@ func TestReplay(t *testing.T) { pb.RunReplay(t) }
 
 type strCase struct {
 	Fn   string // sub | mask | display | rev | remove
+	Rep  int    // > 1: the text is S repeated this many times
 	S    g.B
 	Mask g.B
 	A, B int
@@ -35,8 +37,11 @@ func genStr(t *rapid.T) strCase {
 	} else {
 		c.S = []byte(g.UTF8(10).Draw(t, "s"))
 	}
-	n := utf8.RuneCount(c.S)
-	arg := rapid.OneOf(rapid.IntRange(0, n+3), rapid.IntRange(0, n+3), rapid.SampledFrom([]int{1 << 30, 1<<62 - 1, 1<<63 - 1, 1 << 31}))
+	if rapid.IntRange(0, 19).Draw(t, "long") == 0 {
+		c.Rep = rapid.SampledFrom([]int{2, 3, 7, 13, 26, 27, 28, 29, 30, 31, 26, 27, 28, 29, 30, 31, 52, 100, 400, 3000, 7000}).Draw(t, "rep")
+	}
+	n := utf8.RuneCount(c.S) * max(c.Rep, 1)
+	arg := rapid.OneOf(rapid.IntRange(0, n+3), rapid.IntRange(0, n+3), rapid.SampledFrom(append(g.FitInt([]int64{1<<62 - 1, 1<<63 - 1, 1 << 31}), 1<<30, 1<<31-1)))
 	c.A = arg.Draw(t, "a")
 	c.B = arg.Draw(t, "b")
 	switch c.Fn {
@@ -52,7 +57,7 @@ func genStr(t *rapid.T) strCase {
 			c.Mask = []byte(string(rapid.SliceOfN(g.Rune(), k, k).Draw(t, "mask")))
 		}
 	case "display":
-		c.A = rapid.OneOf(rapid.IntRange(0, 2*n+3), rapid.SampledFrom([]int{1 << 30, 1<<63 - 1})).Draw(t, "limit")
+		c.A = rapid.OneOf(rapid.IntRange(0, 2*n+3), rapid.SampledFrom(append(g.FitInt([]int64{1<<63 - 1}), 1<<30, 1<<31-1))).Draw(t, "limit")
 	case "remove":
 		rs := []rune(string(c.S))
 		k := rapid.IntRange(0, 3).Draw(t, "nset")
@@ -67,15 +72,83 @@ func genStr(t *rapid.T) strCase {
 	return c
 }
 
+// short renders a long text by its ends.
+func short(s string) string {
+	if len(s) <= 80 {
+		return fmt.Sprintf("%q", s)
+	}
+	return fmt.Sprintf("%q...%q (%d bytes)", s[:40], s[len(s)-24:], len(s))
+}
+
 func sat(a, b int) int { // saturating add for reference arithmetic
-	if a > 1<<62 || b > 1<<62 {
-		return 1 << 62
+	if s := int64(a) + int64(b); a > math.MaxInt/2 || b > math.MaxInt/2 || s > math.MaxInt/2 {
+		return math.MaxInt / 2
 	}
 	return a + b
 }
 
 func runStr(c strCase, r *pb.Rec) error {
-	s := string(c.S)
+	if c.Rep < 0 || c.Rep > 20000 || len(c.S)*max(c.Rep, 1) > 1<<20 {
+		return nil
+	}
+	s := strings.Repeat(string(c.S), max(c.Rep, 1))
+	salt := len(s) + c.A + c.B
+	if salt%2 == 0 {
+		// the same text as a window into a larger string whose neighbouring bytes look like more text
+		s = g.Window(s, salt/2)
+		r.Class("argument is a window into a larger string")
+	}
+	if err := evalStr(c, s, r); err != nil {
+		return err
+	}
+	r.ClassIf(len(s) >= 256, "text of >= 256 bytes")
+	r.ClassIf(len(s) >= 256 && len(s)%16 >= 8, "text of >= 256 bytes whose length is 8..15 modulo 16")
+	r.ClassIf(len(s) >= 65536, "text of >= 65536 bytes")
+	if len(s) >= 16 && salt%41 == 0 {
+		// texts of the same length and different content, one after the other in recycled memory: each is allocated,
+		// used and dropped, and a garbage collection runs before the next one is allocated (it usually gets the same
+		// address). A helper that remembers its argument by address meets other content at the same place.
+		rs := []rune(s)
+		r.Class("same-length texts in recycled memory, a collection between calls")
+		if c.Fn == "sub" && utf8.ValidString(s) {
+			// with as few other allocations as possible between the rounds, so that the text of the next round
+			// really gets the memory of the previous one: one reused rune buffer, one string per round
+			tmp := make([]rune, len(rs))
+			n := len(rs)
+			if err := g.Recycle(8, func(i int) error {
+				k := (i + 1) * 7 % n
+				copy(tmp, rs[k:])
+				copy(tmp[n-k:], rs[:k])
+				v := string(tmp)
+				got := strz.Sub(v, c.A, c.B)
+				lo, hi := min(c.A, n), n
+				if c.B != -1 {
+					hi = min(sat(c.A, c.B), n)
+				}
+				if lo > hi {
+					lo = hi
+				}
+				if want := string(tmp[lo:hi]); got != want {
+					return fmt.Errorf("Sub(text %d of a series of same-length texts in recycled memory (%d bytes), %d, %d) = %s want %s", i, len(v), c.A, c.B, short(got), short(want))
+				}
+				return nil
+			}); err != nil {
+				return err
+			}
+		}
+		return g.Recycle(4, func(i int) error {
+			k := (i + 1) * 7 % len(rs)
+			v := string(append(append(make([]rune, 0, len(rs)), rs[k:]...), rs[:k]...))
+			if len(v) != len(s) && utf8.ValidString(s) {
+				return fmt.Errorf("HARNESS: rotation changed the length")
+			}
+			return evalStr(c, v, &pb.Rec{})
+		})
+	}
+	return nil
+}
+
+func evalStr(c strCase, s string, r *pb.Rec) error {
 	valid := utf8.ValidString(s)
 	rs := []rune(s)
 	n := len(rs)
@@ -139,9 +212,6 @@ func runStr(c strCase, r *pb.Rec) error {
 			rv[n-1-i] = x
 		}
 		want = string(rv)
-		if strz.Len(s) != n {
-			return fmt.Errorf("Len(%q) = %d want %d", s, strz.Len(s), n)
-		}
 	case "remove":
 		in := func(x rune) bool {
 			for _, y := range c.Set {
@@ -164,6 +234,9 @@ func runStr(c strCase, r *pb.Rec) error {
 		want = string(keep)
 		r.ClassIf(hit, "rune removed")
 	}
+	if l := strz.Len(s); l != n {
+		return fmt.Errorf("Len(%.60q... of %d bytes) = %d want %d", s, len(s), l, n)
+	}
 	// the result must not change when the same helper is called again with other input (no pooled buffers)
 	keep := strings.Clone(got)
 	other := "\u00e9" + s + "zz"
@@ -184,7 +257,7 @@ func runStr(c strCase, r *pb.Rec) error {
 	}
 	if valid {
 		if got != want {
-			return fmt.Errorf("%s(%q, mask=%q, %d, %d, set=%q) = %q want %q", c.Fn, s, c.Mask, c.A, c.B, string(c.Set), got, want)
+			return fmt.Errorf("%s(%s, mask=%q, %d, %d, set=%q) = %s want %s", c.Fn, short(s), c.Mask, c.A, c.B, string(c.Set), short(got), short(want))
 		}
 		if !utf8.ValidString(got) {
 			return fmt.Errorf("%s(%q,...) = %q is not valid UTF-8", c.Fn, s, got)
@@ -280,8 +353,8 @@ func FuzzStrs(f *testing.F) {
 }
 
 func init() {
-	pb.Register("helpers", pb.Options{Twins: 3, Base: 40000, Required: []string{"invalid UTF-8 input", "huge argument", "start beyond length", "multi-rune mask", "rune removed"},
-		Rule: "Sub/Mask/SubByDisplay/Rev+Len/RemoveRunes on strings of 0..10 runes mixing 1-4 byte runes (1 in 4 with invalid byte sequences), arguments 0..runes+3 and huge; oracle = []rune definitions + utf8.ValidString for valid input, no panic for any input; non-trivial = >= 2 runes with a multi-byte or invalid one"},
+	pb.Register("helpers", pb.Options{Twins: 3, Base: 40000, Required: []string{"invalid UTF-8 input", "huge argument", "start beyond length", "multi-rune mask", "rune removed", "text of >= 256 bytes whose length is 8..15 modulo 16", "text of >= 65536 bytes", "argument is a window into a larger string", "same-length texts in recycled memory, a collection between calls"},
+		Rule: "Sub/Mask/SubByDisplay/Rev/RemoveRunes and Len on strings of 0..10 runes mixing 1-4 byte runes (1 in 4 with invalid byte sequences), in one case in twenty repeated 2..7000 times (texts up to some 200 KB), arguments 0..runes+3 and huge; half of the texts are passed as windows into larger strings (continuation bytes, digits, escapes as neighbours); one case in forty repeats the call on 4 same-length rotations of the text, each freshly allocated after a forced garbage collection; oracle = []rune definitions + utf8.ValidString for valid input, no panic for any input; non-trivial = >= 2 runes with a multi-byte or invalid one"},
 		genStr, runStr)
 	pb.Register("snake_camel", pb.Options{Base: 8000, Required: []string{"identifier converted again after 5000 others"}, Rule: "identifiers word(_word)*, word=[a-z][a-z0-9]*, both firstUp values; oracle CamelCaseToSnake(SnakeToCamelCase(x)) == x; non-trivial = >= 2 words"},
 		genSnake, runSnake)
